@@ -186,6 +186,152 @@ func shardStress(seed uint64, index string, ms int) string {
 	return "ok"
 }
 
+// oooStress: one writer sends the points of a series in descending time order (every write is
+// older than what the cache holds, so the cache entry is out of order until a reader sorts it)
+// while several readers read the series: every read must hold every point acknowledged
+// before it began, once.
+func oooStress(seed uint64, index string, ms int) string {
+	dir, _ := os.MkdirTemp(shardh.WorkDir("stress"), "s-")
+	defer os.RemoveAll(dir)
+	h, err := shardh.New(dir, index)
+	if err != nil {
+		return "err:" + strings.ReplaceAll(err.Error(), " ", "_")
+	}
+	defer h.Close()
+	const top = int64(1 << 30)
+	var acked int64
+	stop := make(chan struct{})
+	var wg sync.WaitGroup
+	var failure atomic.Value
+	fail := func(s string) { failure.CompareAndSwap(nil, s) }
+	wg.Add(1)
+	go func() {
+		defer wg.Done()
+		tags := models.NewTags(map[string]string{"w": "desc"})
+		for i := int64(0); i < top; i++ {
+			select {
+			case <-stop:
+				return
+			default:
+			}
+			p, _ := models.NewPoint("m", tags, models.Fields{"v": i}, time.Unix(0, base+(top-i)*1000))
+			if err := h.Store.WriteToShard(shardh.ShardID, []models.Point{p}); err != nil {
+				fail("write failed: " + err.Error())
+				return
+			}
+			atomic.StoreInt64(&acked, i+1)
+			if i%64 == int64(seed%64) {
+				time.Sleep(50 * time.Microsecond)
+			}
+		}
+	}()
+	for r := 0; r < 4; r++ {
+		wg.Add(1)
+		go func() {
+			defer wg.Done()
+			for {
+				select {
+				case <-stop:
+					return
+				default:
+				}
+				before := atomic.LoadInt64(&acked)
+				tvs, err := h.ReadIter("m", "w=desc", "v", base, base+(top+1)*1000, true)
+				if err != nil {
+					fail("read failed: " + err.Error())
+					return
+				}
+				have := make(map[int64]int, len(tvs))
+				for _, tv := range tvs {
+					have[tv.T]++
+				}
+				for i := int64(0); i < before; i++ {
+					if n := have[base+(top-i)*1000]; n != 1 {
+						fail(fmt.Sprintf("a read returned the point written as number %d (acknowledged before the read began; %d were) %d times", i, before, n))
+						return
+					}
+				}
+			}
+		}()
+	}
+	done := make(chan struct{})
+	go func() { time.Sleep(time.Duration(ms) * time.Millisecond); close(stop); wg.Wait(); close(done) }()
+	select {
+	case <-done:
+	case <-time.After(time.Duration(ms)*time.Millisecond + 60*time.Second):
+		return "DEADLOCK: the workers did not stop within 60 s of the stop signal"
+	}
+	if f := failure.Load(); f != nil {
+		return "LOST " + strings.ReplaceAll(f.(string), " ", "_")
+	}
+	return "ok"
+}
+
+// newFields: rounds in which several goroutines write, at the same time, points that each
+// bring a different new field of one measurement; every acknowledged write must be readable,
+// now and after a restart.
+func newFields(seed uint64, index string, rounds int) string {
+	dir, _ := os.MkdirTemp(shardh.WorkDir("stress"), "s-")
+	defer os.RemoveAll(dir)
+	h, err := shardh.New(dir, index)
+	if err != nil {
+		return "err:" + strings.ReplaceAll(err.Error(), " ", "_")
+	}
+	defer h.Close()
+	const writers = 8
+	type ack struct {
+		field string
+		t     int64
+	}
+	var acks []ack
+	for round := 0; round < rounds; round++ {
+		var wg sync.WaitGroup
+		start := make(chan struct{})
+		res := make([]error, writers)
+		for w := 0; w < writers; w++ {
+			wg.Add(1)
+			go func(w int) {
+				defer wg.Done()
+				p, _ := models.NewPoint("m", models.NewTags(map[string]string{"host": "a"}), models.Fields{fmt.Sprintf("f%d_%d", round, w): int64(round*100 + w)}, time.Unix(0, base+int64(round*writers+w)*1000))
+				<-start
+				res[w] = h.Store.WriteToShard(shardh.ShardID, []models.Point{p})
+			}(w)
+		}
+		close(start)
+		wg.Wait()
+		for w := 0; w < writers; w++ {
+			if res[w] == nil {
+				acks = append(acks, ack{fmt.Sprintf("f%d_%d", round, w), base + int64(round*writers+w)*1000})
+			}
+		}
+	}
+	check := func(when string) string {
+		for _, a := range acks {
+			tvs, err := h.ReadIter("m", "host=a", a.field, base, base+1<<40, true)
+			if err != nil {
+				return "err:read:" + strings.ReplaceAll(err.Error(), " ", "_")
+			}
+			if len(tvs) != 1 || tvs[0].T != a.t {
+				return fmt.Sprintf("LOST %s:_the_acknowledged_write_of_new_field_%s_reads_%d_points", when, a.field, len(tvs))
+			}
+		}
+		return ""
+	}
+	if why := check("at_rest"); why != "" {
+		return why
+	}
+	if err := h.Reopen(); err != nil {
+		return "err:reopen:" + strings.ReplaceAll(err.Error(), " ", "_")
+	}
+	if why := check("after_a_restart"); why != "" {
+		return why
+	}
+	if len(acks) == 0 {
+		return "err:nothing_acknowledged"
+	}
+	return "ok"
+}
+
 // fieldRace: goroutines write a new field with different types at the same time; afterwards
 // the field has one type and only values of that type.
 func fieldRace(seed uint64, index string, rounds int) string {
@@ -247,6 +393,111 @@ func fieldRace(seed uint64, index string, rounds int) string {
 
 // hhStress: concurrent appenders and one drainer on a hinted-handoff queue; every appended
 // block is drained exactly once, in per-appender order.
+// hhCatchup: the reader has caught up with the appenders (the head segment is also the tail);
+// one block is appended, and at the moment the reader has read it and is about to advance
+// past it — and to decide that the head segment is exhausted — eight appenders append one
+// block each. Segments hold three blocks. Every accepted block must come out once.
+func hhCatchup(seed uint64, ms int) string {
+	dir, _ := os.MkdirTemp(shardh.WorkDir("stress"), "h-")
+	defer os.RemoveAll(dir)
+	q, err := hh.VerifNewQueue(dir, 1<<30, 100)
+	if err != nil {
+		return "err:" + strings.ReplaceAll(err.Error(), " ", "_")
+	}
+	if err := q.Open(); err != nil {
+		return "err:" + err.Error()
+	}
+	defer q.Close()
+	const blockSize = 64
+	q.SetMaxSegmentSize(3*(blockSize+8) + 8)
+	const appenders = 8
+	var (
+		nextID        uint64
+		accepted      sync.Map
+		nAcc, nDeliv  int64
+		appendersDone int32
+		armed         int32
+		burst         atomic.Value
+		appendErr     atomic.Value
+	)
+	appendOne := func() {
+		id := atomic.AddUint64(&nextID, 1)
+		b := make([]byte, blockSize)
+		copy(b, fmt.Sprintf("%020d", id))
+		if err := q.Append(b); err != nil {
+			appendErr.CompareAndSwap(nil, err.Error())
+			return
+		}
+		accepted.Store(id, struct{}{})
+		atomic.AddInt64(&nAcc, 1)
+	}
+	deadline := time.Now().Add(time.Duration(ms) * time.Millisecond)
+	go func() {
+		defer atomic.StoreInt32(&appendersDone, 1)
+		for time.Now().Before(deadline) {
+			start := make(chan struct{})
+			var wg sync.WaitGroup
+			for a := 0; a < appenders; a++ {
+				wg.Add(1)
+				go func() {
+					defer wg.Done()
+					<-start
+					appendOne()
+				}()
+			}
+			burst.Store(start)
+			atomic.StoreInt32(&armed, 1)
+			appendOne()
+			wg.Wait()
+			waitUntil := time.Now().Add(5 * time.Second)
+			for !q.Empty() && time.Now().Before(waitUntil) {
+				time.Sleep(20 * time.Microsecond)
+			}
+			if atomic.LoadInt64(&nDeliv) != atomic.LoadInt64(&nAcc) {
+				return
+			}
+		}
+	}()
+	delivered := map[uint64]int{}
+	hard := time.Now().Add(time.Duration(ms)*time.Millisecond + 30*time.Second)
+	for time.Now().Before(hard) {
+		b, err := q.Current()
+		if err != nil {
+			if atomic.LoadInt32(&appendersDone) == 1 && q.Empty() {
+				break
+			}
+			q.Advance() // what the processor does on EOF: move on from an exhausted head segment
+			time.Sleep(10 * time.Microsecond)
+			continue
+		}
+		var id uint64
+		fmt.Sscanf(string(b[:20]), "%d", &id)
+		delivered[id]++
+		atomic.AddInt64(&nDeliv, 1)
+		if atomic.CompareAndSwapInt32(&armed, 1, 0) {
+			close(burst.Load().(chan struct{}))
+		}
+		q.Advance()
+	}
+	if e := appendErr.Load(); e != nil {
+		return "err:append:" + strings.ReplaceAll(e.(string), " ", "_")
+	}
+	lost, dup := 0, 0
+	accepted.Range(func(k, _ interface{}) bool {
+		switch n := delivered[k.(uint64)]; {
+		case n == 0:
+			lost++
+		case n > 1:
+			dup++
+		}
+		return true
+	})
+	if lost > 0 || dup > 0 {
+		return fmt.Sprintf("HH %d_blocks_accepted,_%d_never_handed_to_the_reader,_%d_handed_out_twice", atomic.LoadInt64(&nAcc), lost, dup)
+	}
+	return "ok"
+}
+
 func hhStress(seed uint64, ms int) string {
 	dir, _ := os.MkdirTemp(shardh.WorkDir("stress"), "h-")
 	defer os.RemoveAll(dir)
@@ -257,7 +508,14 @@ func hhStress(seed uint64, ms int) string {
 	if err := q.Open(); err != nil {
 		return "err:" + err.Error()
 	}
+	// odd seeds: small segments (a few blocks each) and appenders that pause, so that the
+	// drainer keeps catching up with them at the end of a segment and the next burst arrives
+	// while it decides that the head segment is exhausted
+	bursty := seed%2 == 1
 	q.SetMaxSegmentSize(4096)
+	if bursty {
+		q.SetMaxSegmentSize(700)
+	}
 	defer q.Close()
 	const appenders = 4
 	var sent [appenders]int64
@@ -278,6 +536,9 @@ func hhStress(seed uint64, ms int) string {
 					return
 				}
 				atomic.AddInt64(&sent[a], 1)
+				if bursty && i%4 == 3 {
+					time.Sleep(time.Duration(500+seed%700) * time.Microsecond)
+				}
 			}
 		}(a)
 	}
@@ -476,8 +737,14 @@ func runOp(op string) (out string) {
 			rounds = int(i64(f[3]))
 		}
 		return fieldRace(uint64(i64(f[1])), f[2], rounds)
+	case "stress-ooo":
+		return oooStress(uint64(i64(f[1])), f[2], int(i64(f[3])))
+	case "stress-newfields":
+		return newFields(uint64(i64(f[1])), f[2], int(i64(f[3])))
 	case "stress-hh":
 		return hhStress(uint64(i64(f[1])), int(i64(f[2])))
+	case "stress-hhcatchup":
+		return hhCatchup(uint64(i64(f[1])), int(i64(f[2])))
 	case "stress-hhsend":
 		return hhSender(uint64(i64(f[1])), int(i64(f[2])))
 	}
@@ -502,7 +769,11 @@ func (Prop) Generate(r *fw.Rand, tier string) []fw.Case {
 		idx := []string{"inmem", "tsi1"}[i%2]
 		cases = append(cases, fw.Case{Ops: []string{fmt.Sprintf("stress-shard %d %s %d", r.Intn(1000), idx, ms)}, Tags: []string{"shard"}})
 		cases = append(cases, fw.Case{Ops: []string{fmt.Sprintf("stress-field %d %s %d", r.Intn(1000), idx, ms*2)}, Tags: []string{"field"}})
-		cases = append(cases, fw.Case{Ops: []string{fmt.Sprintf("stress-hh %d %d", r.Intn(1000), ms)}, Tags: []string{"hh"}})
+		cases = append(cases, fw.Case{Ops: []string{fmt.Sprintf("stress-ooo %d %s %d", r.Intn(1000), idx, ms)}, Tags: []string{"ooo"}})
+		cases = append(cases, fw.Case{Ops: []string{fmt.Sprintf("stress-newfields %d %s %d", r.Intn(1000), idx, ms/10)}, Tags: []string{"newfields"}})
+		cases = append(cases, fw.Case{Ops: []string{fmt.Sprintf("stress-hh %d %d", r.Intn(500)*2, ms)}, Tags: []string{"hh"}})
+		cases = append(cases, fw.Case{Ops: []string{fmt.Sprintf("stress-hh %d %d", r.Intn(500)*2+1, ms)}, Tags: []string{"hh-bursty"}})
+		cases = append(cases, fw.Case{Ops: []string{fmt.Sprintf("stress-hhcatchup %d %d", r.Intn(1000), ms)}, Tags: []string{"hh-catchup"}})
 		cases = append(cases, fw.Case{Ops: []string{fmt.Sprintf("stress-hhsend %d %d", r.Intn(1000), ms)}, Tags: []string{"hhsend"}})
 	}
 	return cases
